@@ -310,8 +310,9 @@ def o_totp_key(rec, case, soft=False):
     for script in scripts:
         r = ScriptedRandom(script)
         with patched_rng(r):
-            t = TOTP.new(size=size) if size is not None else TOTP.new()
-        want = size if size is not None else 20
+            kw = {"alg": case["alg"]} if case.get("alg") else {}
+            t = TOTP.new(size=size, **kw) if size is not None else TOTP.new(**kw)
+        want = size if size is not None else {"sha1": 20, "sha256": 32, "sha512": 64}[case.get("alg") or "sha1"]
         if not isinstance(t.key, bytes) or len(t.key) != want:
             rec.fail("C06/totp-key-size", f"TOTP.new(size={size}) key has {len(t.key)} bytes", "totp_key", case, len(t.key), want, soft=soft)
             return
@@ -675,6 +676,18 @@ def t_all_salts(rec, seed, tier):
             rec.nt("salt", name, size)
             o_hasher_salt(rec, {"name": name, "salt_size": size, "scripts": scripts}, soft=True)
         rec.sample("all-salts", {"name": name, "sizes": [s for s in sizes if s is not None][:3] or ["default"]})
+    # every documented TOTP key size: 10 bytes up to the digest size of the algorithm (the default), both ends included
+    for alg, top in (("sha1", 20), ("sha256", 32), ("sha512", 64)):
+        for size in [None] + list(range(10, top + 1)):
+            rec.ev()
+            rec.nt("totp-size", alg, size)
+            o_totp_key(rec, {"size": size, "alg": alg, "scripts": [[r.getrandbits(800)], [r.getrandbits(800)]]}, soft=True)
+    # django_disabled: '!' + a random suffix of the declared length over its declared alphabet
+    h = table.handler("django_disabled")
+    outs = [h.hash("x") for _ in range(200)]
+    rec.ev(200)
+    if any(len(o) != 1 + h.suffix_length or not o.startswith("!") or set(o[1:]) - set("ABCDEFGHIJKLMNOPQRSTUVWXYZabcdefghijklmnopqrstuvwxyz0123456789") for o in outs) or len(set(outs)) != 200:
+        rec.fail("C06/salt-size/django_disabled", "django_disabled suffix is not `suffix_length` random alphanumerics", "hasher_salt", {"name": "django_disabled"}, outs[0], 1 + h.suffix_length, soft=True)
     rec.subrecord("salted-hashers", enumerated_sizes=True)
 
 
@@ -742,6 +755,14 @@ def t_libpass_salt(rec, seed, tier):
     from passlib.utils.binary import ab64_decode
 
     for cls in (PBKDF2SHA256Handler, PBKDF2SHA512Handler):
+        for bits in (64, 128, 192, 256, 300):
+            hs = cls(rounds=1, salt_entropy_bits=bits).hash("pw")
+            salt = ab64_decode(hs.split("$")[3])
+            rec.ev()
+            n = len(salt)
+            if n * math.log2(62) < bits or (n - 1) * math.log2(62) >= bits:
+                rec.fail(f"C06/libpass-salt/hasher-entropy/{cls.__name__}", f"libpass {cls.__name__}(salt_entropy_bits={bits}) makes salts of {n} characters", "libpass_salt", {"kind": cls.__name__, "bits": bits}, n, math.ceil(bits / math.log2(62)), soft=True)
+                break
         for _ in range(20):
             hs = cls(rounds=1).hash("pw")
             salt = ab64_decode(hs.split("$")[3])
